@@ -34,9 +34,11 @@ type site struct {
 }
 
 type walker struct {
-	holder string
-	sites  []site
-	other  []string // shared-memory constructs the instruction type cannot express
+	holder   string
+	sites    []site
+	other    []string            // shared-memory constructs the instruction type cannot express
+	defs     map[string]ast.Expr // local variable -> the expression last assigned to it
+	soleExit map[*ast.IfStmt]bool
 }
 
 // holderVar finds the variable bound to the first result of getOrDefault(...).
@@ -125,6 +127,13 @@ func (w *walker) stmt(s ast.Stmt, loop int) {
 		for _, r := range x.Rhs {
 			w.expr(r, loop, false)
 		}
+		if len(x.Lhs) == len(x.Rhs) {
+			for i, l := range x.Lhs {
+				if id, ok := l.(*ast.Ident); ok {
+					w.defs[id.Name] = x.Rhs[i]
+				}
+			}
+		}
 	case *ast.DeclStmt:
 		if gd, ok := x.Decl.(*ast.GenDecl); ok {
 			for _, sp := range gd.Specs {
@@ -140,8 +149,21 @@ func (w *walker) stmt(s ast.Stmt, loop int) {
 			w.expr(r, loop, false)
 		}
 	case *ast.IfStmt:
-		w.stmt(x.Init, loop)
-		w.expr(x.Cond, loop, true)
+		// the guard of a retry loop: `if CAS(..) { break }` or `if ok := CAS(..); ok { break }`,
+		// and only when leaving through this `if` is the loop's sole exit
+		guard := loop >= 0 && w.soleExit[x]
+		if as, ok := x.Init.(*ast.AssignStmt); ok && guard {
+			if _, isIdent := x.Cond.(*ast.Ident); isIdent {
+				for _, r := range as.Rhs {
+					w.expr(r, loop, true)
+				}
+			} else {
+				w.stmt(x.Init, loop)
+			}
+		} else {
+			w.stmt(x.Init, loop)
+		}
+		w.expr(x.Cond, loop, guard)
 		w.stmts(x.Body.List, loop)
 		w.stmt(x.Else, loop)
 	case *ast.BlockStmt:
@@ -151,6 +173,7 @@ func (w *walker) stmt(s ast.Stmt, loop int) {
 		if x.Cond != nil {
 			w.other = append(w.other, "for-with-condition")
 		}
+		w.markSoleExit(x)
 		w.stmts(x.Body.List, len(w.sites))
 		w.stmt(x.Post, loop)
 	case *ast.RangeStmt:
@@ -163,8 +186,58 @@ func (w *walker) stmt(s ast.Stmt, loop int) {
 	}
 }
 
-// fnTag names the pure function whose result is stored: the new logger expression.
-func fnTag(e ast.Expr) string {
+// exits counts the break / return statements of a loop body (not those of nested loops,
+// switches or function literals).
+func exits(n ast.Node) int {
+	c := 0
+	ast.Inspect(n, func(m ast.Node) bool {
+		switch y := m.(type) {
+		case *ast.ForStmt, *ast.RangeStmt, *ast.SwitchStmt, *ast.TypeSwitchStmt, *ast.SelectStmt, *ast.FuncLit:
+			return m == n
+		case *ast.BranchStmt:
+			if y.Tok == token.BREAK || y.Tok == token.GOTO {
+				c++
+			}
+		case *ast.ReturnStmt:
+			c++
+		}
+		return true
+	})
+	return c
+}
+
+// markSoleExit records the top-level `if` statements of a `for {}` body through which alone
+// the loop can be left (their body ends in break/return and holds every exit of the loop).
+func (w *walker) markSoleExit(f *ast.ForStmt) {
+	total := exits(f.Body)
+	for _, s := range f.Body.List {
+		ifs, ok := s.(*ast.IfStmt)
+		if !ok || ifs.Else != nil || len(ifs.Body.List) == 0 {
+			continue
+		}
+		last := ifs.Body.List[len(ifs.Body.List)-1]
+		_, isRet := last.(*ast.ReturnStmt)
+		br, isBr := last.(*ast.BranchStmt)
+		if (isRet || (isBr && br.Tok == token.BREAK)) && exits(ifs.Body) == total {
+			w.soleExit[ifs] = true
+		}
+	}
+}
+
+// fnTag names the pure function whose result is stored: the new logger expression (a local
+// variable is followed to the expression assigned to it).
+func (w *walker) fnTag(e ast.Expr) string {
+	for i := 0; i < 4; i++ {
+		id, ok := e.(*ast.Ident)
+		if !ok {
+			break
+		}
+		d, ok := w.defs[id.Name]
+		if !ok {
+			break
+		}
+		e = d
+	}
 	var b bytes.Buffer
 	format.Node(&b, token.NewFileSet(), e)
 	s := b.String()
@@ -184,12 +257,12 @@ func instrs(w *walker) []string {
 		case "Load":
 			out = append(out, "ILoad")
 		case "Store":
-			out = append(out, "IStore "+fnTag(st.call.Args[0]))
+			out = append(out, "IStore "+w.fnTag(st.call.Args[0]))
 		case "CompareAndSwap":
 			if st.loop >= 0 && st.inCond {
-				out = append(out, fmt.Sprintf("ICas %s %d", fnTag(st.call.Args[1]), st.loop))
+				out = append(out, fmt.Sprintf("ICas %s %d", w.fnTag(st.call.Args[1]), st.loop))
 			} else {
-				out = append(out, "ICasOutsideRetryLoop "+fnTag(st.call.Args[1]))
+				out = append(out, "ICasOutsideRetryLoop "+w.fnTag(st.call.Args[1]))
 			}
 		default:
 			out = append(out, "IUnsupported_"+st.method)
@@ -219,7 +292,7 @@ func main() {
 		if !ok || fn.Recv != nil || fn.Body == nil || (fn.Name.Name != "WithFields" && fn.Name.Name != "SetLevel") {
 			continue
 		}
-		w := &walker{holder: holderVar(fn)}
+		w := &walker{holder: holderVar(fn), defs: map[string]ast.Expr{}, soleExit: map[*ast.IfStmt]bool{}}
 		w.stmts(fn.Body.List, -1)
 		progs[fn.Name.Name] = instrs(w)
 		if *instrument {
